@@ -22,6 +22,26 @@
      alt[r][k] known-finding alternatives for replica r: outcomes that a listed
                defect of the unchanged tree makes r hold instead of the agreed
                one, each labelled with the deviation ids that have to be in KF
+     want[k]   what the last successful operation on k promises about the
+               outcome itself (not only that the replicas agree): ds = the
+               decoded contents it may be (the uploaded bytes; either blob of a
+               concurrent pair; {} = nothing promised), fix = <<field, value>>
+               pairs every replica's outcome carries (a delete: st = "gone";
+               the trace specification adds the uploaded pairs, the client's
+               timestamp; for an encrypted upload dec = the key it returned)
+
+   An upload enters by one of several ways - a multipart POST typed by the
+   client, operation.Upload (reader; the client library sniffs the mime type,
+   compresses or passes a compressed input on), operation.UploadData - with or
+   without client-side encryption (cipher).  The way changes nothing in what is
+   promised: every replica decodes to the uploaded bytes; for an encrypted
+   upload "decoded" = decrypted with the key the upload returned (field dec of
+   the outcome names the key that opens the stored bytes - "k1", "k2", ... in the
+   order the keys were returned for this file id, "plain" when they are not
+   encrypted with any of them; ct = identity of the stored ciphertext, compared
+   like every other field: the replicas hold the SAME ciphertext).  An encrypted
+   upload never finds a copy unchanged (fresh key and nonce) and never stores
+   a size-0 needle, so those two alternatives are not offered to it.
 
    Replicas are the volume's copies, also while one is unmounted: an unmounted
    copy cannot be observed (outcome st = "novol"), it is compared again as
@@ -30,8 +50,8 @@
    BlobStore supplies the token tables (MetaTable, Gz, StoredEmpty) for the
    generators and layer B. *)
 EXTENDS BlobStore
-VARIABLES member, mounted, val, need, alt
-avars == <<member, mounted, val, need, alt>>
+VARIABLES member, mounted, val, need, alt, want
+avars == <<member, mounted, val, need, alt, want>>
 
 AllR == {0, 1, 2}
 AllK == {1, 2, 3}
@@ -40,6 +60,14 @@ NoOutcome == [st |-> "unknown", c |-> "", d |-> ""]
 IsData(v) == v.st = "data"
 (* a size-0 needle: served without reading the record - no cookie, no metadata *)
 IsSize0(v) == v.st = "data" /\ v.c = "?" /\ v.d = "e"
+(* the stored bytes are ciphertext (they decrypt with a key an upload of this file id returned) *)
+IsCiphered(v) == "dec" \in DOMAIN v /\ v.dec # "plain"
+
+NoWant == [ds |-> {}, fix |-> {}]
+Want(ds, fix) == [ds |-> ds, fix |-> fix]
+Meets(w, o) ==
+  /\ w.ds # {} => (o.st = "data" /\ o.d \in w.ds)
+  /\ \A p \in w.fix : p[1] \in DOMAIN o /\ o[p[1]] = p[2]
 
 (* an execution starts with a fresh volume: every copy holds nothing (outcome `gone`) *)
 AInit(n, gone) ==
@@ -47,6 +75,7 @@ AInit(n, gone) ==
   /\ val = [r \in AllR |-> [k \in AllK |-> gone]]
   /\ need = [k \in AllK |-> FALSE]
   /\ alt = [r \in AllR |-> [k \in AllK |-> {}]]
+  /\ want = [k \in AllK |-> NoWant]
 
 (* an alternative: the deviation ids it relies on, what it admits for the copy (kind, ob, ds) *)
 Alt(ids, kind, ob, ds) == [ids |-> ids, kind |-> kind, ob |-> ob, ds |-> ds]
@@ -69,17 +98,19 @@ Matches(a, v) ==
    asked, cached for 10 minutes) and reports their success without comparing
    their number with the copy count; its own copy and every copy missing from
    that list - unmounted, or mounted again since - keep what they had. *)
-UploadAlts(r, to, k, c, d, vttl) ==
+UploadAlts(r, to, k, c, d, vttl, cipher) ==
   LET v == val[r][k] IN
-     (IF vttl = "" /\ IsData(v) /\ ~IsSize0(v) /\ v.c = c /\ v.d = d
+     (IF vttl = "" /\ ~cipher /\ IsData(v) /\ ~IsSize0(v) /\ ~IsCiphered(v) /\ v.c = c /\ v.d = d
         THEN {Alt({"C01-unchanged-keeps-metadata"}, "keep-unchanged", v, {})} ELSE {})
-  \cup (IF d = "e" THEN {Alt({"C01-empty-any-cookie"}, "size0", NoOutcome, {})} ELSE {})
+  \cup (IF d = "e" /\ ~cipher THEN {Alt({"C01-empty-any-cookie"}, "size0", NoOutcome, {})} ELSE {})
   \cup (IF to \in member \ mounted /\ r \in member
           THEN {Alt({"C40-forwarder-skips-copies"}, "keep", v, {})} ELSE {})
 
-AUpload(to, k, c, d, vttl, res) ==
+(* cipher: the client encrypts; fix: what else the outcome carries (see want) *)
+AUpload(to, k, c, d, vttl, res, cipher, fix) ==
   /\ need' = [need EXCEPT ![k] = (res = "ok")]
-  /\ alt' = [r \in AllR |-> [alt[r] EXCEPT ![k] = IF res = "ok" THEN UploadAlts(r, to, k, c, d, vttl) ELSE {}]]
+  /\ alt' = [r \in AllR |-> [alt[r] EXCEPT ![k] = IF res = "ok" THEN UploadAlts(r, to, k, c, d, vttl, cipher) ELSE {}]]
+  /\ want' = [want EXCEPT ![k] = IF res = "ok" THEN Want({d}, fix) ELSE NoWant]
   /\ UNCHANGED <<member, mounted, val>>
 
 (* ---------------------------------------------------------------- two uploads at the same time *)
@@ -93,6 +124,7 @@ ARace(k, c, d1, d2, res1, res2) ==
   /\ need' = [need EXCEPT ![k] = ok]
   /\ alt' = [r \in AllR |-> [alt[r] EXCEPT ![k] =
                IF ok THEN {Alt({"C40-concurrent-overwrites-diverge"}, "oneof", NoOutcome, {d1, d2})} ELSE {}]]
+  /\ want' = [want EXCEPT ![k] = IF ok THEN Want({d1, d2}, {}) ELSE NoWant]
   /\ UNCHANGED <<member, mounted, val>>
 
 (* ---------------------------------------------------------------- delete *)
@@ -105,6 +137,7 @@ DeleteAlts(r, k) ==
 ADelete(to, k, c, res) ==
   /\ need' = [need EXCEPT ![k] = (res = "ok")]
   /\ alt' = [r \in AllR |-> [alt[r] EXCEPT ![k] = IF res = "ok" THEN DeleteAlts(r, k) ELSE {}]]
+  /\ want' = [want EXCEPT ![k] = IF res = "ok" THEN Want({}, {<<"st", "gone">>}) ELSE NoWant]
   /\ UNCHANGED <<member, mounted, val>>
 
 (* ---------------------------------------------------------------- replica faults *)
@@ -123,13 +156,14 @@ AFault(kind, r, res) ==
                     \cup {Alt(a.ids \cup {"C01-empty-lost-on-reload"}, "gone-free", NoOutcome, {}) :
                              a \in {x \in alt[r][k] : x.kind \in {"keep", "keep-noop"} /\ IsSize0(x.ob)}}]]
             ELSE alt
-  /\ UNCHANGED <<val, need>>
+  /\ UNCHANGED <<val, need, want>>
 
 (* ---------------------------------------------------------------- what the replicas hold *)
 (* obs[r] = the outcome observed on replica r for key k (st = "novol": no copy in
    service on r).  Admitted with deviation set S iff the replicas that are not
-   excused by an alternative agree whenever agreement is needed, and S is
-   exactly the set of deviation ids the excused replicas rely on. *)
+   excused by an alternative agree whenever agreement is needed and hold what
+   the operation promised (want), and S is exactly the set of deviation ids the
+   excused replicas rely on. *)
 Readable(obs) == {r \in member : obs[r].st # "novol"}
 (* An alternative excuses one copy for what the defect does to it, never the others: a copy v that is excused
    through alternative a is still bound to every copy w that is not excused -
@@ -149,8 +183,9 @@ SnapOK(k, obs, S) ==
       /\ \A r \in E : pick[r] \in alt[r][k] /\ Matches(pick[r], obs[r])
       /\ S = UNION {pick[r].ids : r \in E}
       /\ need[k] => /\ \A r1, r2 \in Readable(obs) \ E : obs[r1] = obs[r2]
+                    /\ \A r \in Readable(obs) \ E : Meets(want[k], obs[r])
                     /\ \A r \in E : \A w \in Readable(obs) \ E : Compatible(pick[r], obs[r], obs[w])
 ASnap(k, obs) ==
   /\ val' = [r \in AllR |-> IF r \in Readable(obs) THEN [val[r] EXCEPT ![k] = obs[r]] ELSE val[r]]
-  /\ UNCHANGED <<member, mounted, need, alt>>
+  /\ UNCHANGED <<member, mounted, need, alt, want>>
 =============================================================================
